@@ -14,7 +14,7 @@ def call_sql(c, conds):
     if fn == "lag":
         args = [v]
         if c["off"] != 1 or c["hasdef"] or c["ign"] == 0: args.append(str(c["off"]))
-        if c["hasdef"] or c["ign"] == 0: args.append(str(c["_defpy"]) if c["hasdef"] else "0")
+        if c["hasdef"] or c["ign"] == 0: args.append(c["defcol"] if c["hasdef"] == 2 else str(c["_defpy"]) if c["hasdef"] else "0")
         if c["ign"] == 0: args.append("false")
         return "lag(%s)" % ", ".join(args)
     if fn == "latest":
@@ -40,11 +40,16 @@ def mk(rng, quick):
         c = {"al": "a%d" % i, "fn": fn, "col": "v", "off": 1, "hasdef": 0, "def": {"k": "null"}, "ign": 1, "start": 0, "reset": 0, "show": 1}
         if fn == "lag":
             c["off"] = rng.choice([1, 1, 2])
-            if rng.random() < 0.4:
+            r0 = rng.random()
+            if r0 < 0.4:
                 c["hasdef"], c["_defpy"] = 1, -1
                 c["def"] = absnum(-1)
                 if rng.random() < 0.5:
                     c["ign"] = 0
+            elif r0 < 0.6:
+                # the default is a column: evaluated on the row that needs it (offset 2, or leading NULLs under ignoreNull)
+                c["hasdef"], c["defcol"] = 2, "w"
+                c["off"] = rng.choice([1, 2, 2])
         elif fn == "latest":
             if rng.random() < 0.4:
                 c["hasdef"], c["_defpy"], c["def"] = 1, 7, absnum(7)
@@ -73,10 +78,12 @@ def mk(rng, quick):
         if c0["fn"] in ("had_changed", "changed_col", "latest") or c0["fn"] == "lag":
             c0.update(fn="acc_sum", off=1, hasdef=0, ign=1, start=0, reset=0)
             c0["def"] = {"k": "null"}
-        for c in calls: c["show"] = 0
+        c0["show"] = 0
         wop, wlit = rng.choice([">", "<"]), rng.choice([2, 4, 6])
-        calls = calls[:1]
-        txt = "SELECT id, v FROM stream WHERE %s%s %s %d" % (call_sql(c0, conds), over, wop, wlit)
+        if rng.random() < 0.5:
+            calls = calls[:1]
+        # analytic calls in the SELECT list next to an analytic WHERE: they, too, see EVERY row (the WHERE is evaluated after them)
+        txt = "SELECT id, v%s FROM stream WHERE %s%s %s %d" % ("".join(", %s%s AS %s" % (call_sql(c, conds), over, c["al"]) for c in calls[1:]), call_sql(c0, conds), over, wop, wlit)
     else:
         txt = "SELECT id, " + ", ".join("%s%s AS %s" % (call_sql(c, conds), over, c["al"]) for c in calls) + " FROM stream"
         if where is not None:
